@@ -433,7 +433,11 @@ func (w *World) project(msg hwebsocket.Msg) M {
 	case n == int32(hagallpb.MsgType_MSG_TYPE_ERROR_RESPONSE):
 		var m hagallpb.ErrorResponse
 		if dec(&m) {
-			return M{"t": "ERROR", "rid": int(m.RequestId), "code": int(m.Code)}
+			rid := int(m.RequestId)
+			if idx, ok := w.pings[m.RequestId]; ok {
+				rid = idx // a refused ping response echoes the (huge) ping id: log its index
+			}
+			return M{"t": "ERROR", "rid": rid, "code": int(m.Code)}
 		}
 	case n == int32(hagallpb.MsgType_MSG_TYPE_SYNC_CLOCK):
 		return M{"t": "SYNC_CLOCK"}
